@@ -643,3 +643,5 @@ def replay(case):
         return None
     return (f'GET {case["rules"][0]} and POST {case["rules"][1]} share one pattern: {case["method"]} {case["path"]} called the '
             f'handler with {got[1]!r}; it was registered under a rule whose wildcard is named {name!r}')
+
+MANIFEST['text'] += " Wildcard names of every identifier shape, numeric edge texts ('5.', '.5') and rules whose literal begins with a dot are part of the universe; registered-then-removed rule sets and route hooks on a route's own pattern are layers of their own."
